@@ -29,6 +29,14 @@ CHECKS = {
          "Every workload of up to N packets (gaps incl. same-step/same-instant/coinciding with transmission ends) over 6 schedulers x tables x rates x flow-to-class maps is executed on the real code; departure instants, per-flow order, counters after every kernel step and Monitor samples are compared with an exact reference. Complete within the stated bounds, nothing sampled.",
          "bounds: N<=3/4 packets full menu, N<=4/5 reduced; dyadic rates/sizes so float arithmetic is exact; reference model in harness/sched.py is trusted",
          "DESIGN.md 3 C12"),
+ "C06": ("exhaustive enumeration of operation histories (puppet processes driven through mailboxes, batches inside one instant) and of customer-script populations on the real Resource classes; reference = set of admissible states with lazy hand-over forks",
+         "Every legal history of up to D request/release/double-release/foreign-release/cancel/with-exit/tick/flush operations on 3 puppets, and every population of 3-4 customer scripts written with `with res.request() as r: yield r | timeout` (incl. preemption reactions and an outside interrupt leaving the with-block through the exception), is executed on Resource, PriorityResource and PreemptiveResource with capacity 1-3; capacity is checked after every kernel step, no-idle-slot at every clock advance, and users/queue/grant sequence/preemptions must equal some admissible reference state.",
+         "bounds: D<=6/8 (plain), 5/7 (priority, preemptive); one request per process; hand-over timing inside an instant and the post-cancel look at the new queue head are forked",
+         "DESIGN.md 3 C06"),
+ "C07": ("exhaustive enumeration of put/get/cancel histories (puppets, batches inside one instant) and user-style `yield req | timeout` scripts on the real Container/Store/PriorityStore/FilterStore; reference = set of admissible states with lazy cross-scan forks",
+         "Every legal history of up to D put/get/cancel/tick/flush operations on 3 puppets is executed on Container (4-5 parameterisations), Store, PriorityStore and FilterStore with capacity 1, 2 and unbounded; bounds after every kernel step, conservation and no-stranded-request at every settled point, and content/pending queues/grants must equal some admissible reference state; scripts with patience timeouts exercise cancel-on-timeout.",
+         "bounds: D<=5/6 (Store 6/7, FilterStore 4/6); one outstanding request per process; amounts 1..3, priorities 1|2 with ties, filters any/==a/==b/never",
+         "DESIGN.md 3 C07"),
  "C08": ("exhaustive enumeration of arrival workloads through every element, every ordered pair of elements, demux fan-outs and generator->element->sink pipelines; per-stage packet ledger by object identity",
          "Every workload of up to N packets is pushed through each of 15 single elements, all 169 ordered chains of 13 single-output elements, FlowDemux/FIBDemux/switch/splitter/hub configurations and two-generator pipelines; at exhaustion every packet handed to a stage is forwarded exactly once as the same object with unchanged identifying fields, or discarded by that stage's counted/owned rule; per-flow order, DistPacketGenerator's emission law and PacketSink's bookkeeping are compared with the ledger.",
          "bounds: N<=3/4 per workload, 2 flows (+1 unrouted), sizes {1,2}; wire-loss and generator draws are harness-owned menus",
@@ -57,10 +65,22 @@ CHECKS = {
          "Every workload of up to N packets (sizes below/at/above the quanta) and static backlogs is executed on the real DRR, RR and WRR; the departure order must be explained by some run of the cyclic-visit automaton, DRR credits at settled points must match it and stay in [0, Q+Lmax), and the fairness bound is evaluated over every interval in which two classes stay backlogged.",
          "bounds: DRR N<=3/4 full menu, 4/5 reduced, backlogs 6/8; RR/WRR N<=4/5, bursts to 7/9; pointer position after idle and same-instant visibility are forked, so only orders no admissible run explains are reported",
          "DESIGN.md 3 C15"),
+ "C16": ("exhaustive enumeration of segment arrival sequences at the real TCPSink, and of fault sets (drop / late delivery by transmission index, deviation-bounded) over a real TCPPacketGenerator+TCPSink pair on a harness path",
+         "Every arrival sequence of up to L segments over {0..3}*MSS is fed to the real TCPSink and each returned ACK compared with the contiguous-prefix length. End to end, for every flow size, path delay pair, initial RTT estimate (incl. RTO < RTT) and Reno/CUBIC, every set of up to F faults among the first K data and ACK transmissions is executed to a 4000 s horizon: the run must not raise, the sink must hold [0,size) and last_ack must reach size; loss-free runs whose RTT stays below every RTO in force must transmit each segment once.",
+         "bounds: L<=6/7; flows 1..6/8 MSS; delays (1,1),(1,3),(3,5); estimates .25/.5/4; F<=3/4 faults among the first 12/20 transmissions of each direction; FIFO paths",
+         "DESIGN.md 3 C16"),
+ "C17": ("exhaustive enumeration of ACK/timer histories at the real TCP sender (the harness plays the network); reference = the statement's window and RTO rules",
+         "Every history of up to D events (new ACK advancing 1-3 segments with RTT sample .5/1/3, duplicate ACK, clock +0.5, next timer expiry) from 4 Reno start states and 3 CUBIC/fast-recovery start states is executed on the real sender with the kernel run to quiescence after each event; cwnd, ssthresh, rto, last_ack, next_seq (and CUBIC's pacing figures) must equal the reference after every event, every new segment must be MSS-sized, consecutive and inside the window, retransmissions must be exactly those the rules call for.",
+         "bounds: D<=5/6 after fixed prefixes; relative tolerance 1e-9; points the statement leaves open are listed in the evidence assumptions",
+         "DESIGN.md 3 C17"),
  "C18": ("complete enumeration of small configuration grids against the real demuxes/switches/hub/splitters; exhaustive enumeration of every flow the owned sample() can generate on FatTree(2), FatTree(4), with FIB walk and end-to-end simulation",
          "All FlowDemux/FIBDemux tables, output lists, end maps and flows of the stated grids, all hub populations/construction styles/senders and all splitter connection patterns are executed; FatTree structure is checked for k<=8/12; every (src,dst,shortest path) choice for k=2 and k=4 (848) with and without tcp has its generated FIB walked hop by hop and is simulated with bare FIBDemux+Port nodes and with FairPacketSwitch(WFQ) nodes whose flows share one class; flow pairs sharing a directed link are simulated.",
          "bounds: grids as listed in the evidence rule; k=4 pairs: first flow among the first 16 (quick) / all 240 endpoint choices (thorough); networkx trusted for graph bookkeeping",
          "DESIGN.md 3 C18"),
+ "C19": ("exhaustive enumeration, deviation-bounded, of stop/restart histories issued before/after the timer's own event at every instant and from its own callback, on the real Timer; reference = set of (pending expiry, stopped, period) states",
+         "For one-shot and auto-restart timers with timeout 2|3 and args None/[7]/7/'ab', every history with up to B stop()/restart(1|2) actions placed before or after the timer's event at any instant 1..H, or inside any callback invocation, is executed; every firing must be expected by some reference state, every expected firing must have happened when the clock advances, arguments must arrive as given, and nothing may raise.",
+         "bounds: H=8/10 instants, B<=3/4 actions; restart of a stopped or already expired one-shot timer is treated leniently (noraise only)",
+         "DESIGN.md 3 C19"),
  "C20": ("exhaustive enumeration of (program, wall-clock behaviour) pairs on the real RealtimeEnvironment under a virtual monotonic/sleep pair, deviation-bounded",
          "Every kernel program of up to D instructions for every factor, initial time and strict setting is executed under every wall-clock behaviour with at most B deviations (compute time before a step incl. lag exactly at and 2^-10 above the limit, sleeps returning early/late, sync() calls); the log must equal the plain Environment's, no occurrence may be processed before its wall-clock due time, and the strict-mode RuntimeError must be raised exactly when the lag at step entry exceeds factor.",
          "bounds: D<=3/4, deviation budget 2/3, sync offered before the first 3/6 steps; virtual clock owned through onl.sim.rt and time module names",
